@@ -40,7 +40,7 @@ Lemma E_liq_has_positive_derivative T : 123 <= T <= 332 ->
 Proof.
   intros HT. eexists. split.
   - unfold vapour_pressure_liquid_exponent, tanh, sinh, cosh. auto_derive.
-    + repeat split; try lra. interval.
+    + repeat split; try lra. interval with (i_prec 40).
     + reflexivity.
   - interval with (i_bisect T, i_prec 40).
 Qed.
@@ -58,7 +58,7 @@ Lemma E_sol_has_positive_derivative T : 110 <= T <= 273.16 ->
 Proof.
   intros HT. eexists. split.
   - unfold vapour_pressure_solid_exponent. auto_derive; [repeat split; lra|reflexivity].
-  - interval with (i_bisect T).
+  - interval with (i_bisect T, i_prec 40).
 Qed.
 
 Theorem p_ice_strictly_increasing T1 T2 : 110 <= T1 -> T2 <= 273.16 -> T1 < T2 ->
@@ -71,7 +71,7 @@ Qed.
 (* ---- triple point and ordering below it ------------------------------------------------------------ *)
 Theorem coincide_at_triple_point :
   Rabs (vapour_pressure_liquid_exponent 273.16 - vapour_pressure_solid_exponent 273.16) <= 1 / 10000.
-Proof. unfold vapour_pressure_liquid_exponent, vapour_pressure_solid_exponent, tanh, sinh, cosh. interval. Qed.
+Proof. unfold vapour_pressure_liquid_exponent, vapour_pressure_solid_exponent, tanh, sinh, cosh. interval with (i_prec 60). Qed.
 
 Theorem p_ice_le_p_liq_below_triple_point T : 123 <= T <= 273.15 ->
   vapour_pressure_solid T <= vapour_pressure_liquid T.
